@@ -64,6 +64,7 @@ def _classes():
 
 KEYS = ['k1', 'k2', 'k3']
 NONE = 9999
+BIND_LOG: List[str] = []          # outcome of second binding attempts during the last build()
 _TYPED: Dict[str, Any] = {}
 
 
@@ -144,7 +145,20 @@ def build(t: dict, root: dict = None):
     cls = _classes()[f'{"S" if t.get("c") else "A"}{len(t["items"])}']
     return cls(*[build(x, root) for x in t['items']])
   if h == 'tobj':
-    return typed_class(t['fs'])(*[build(x, root) for x in t['items']])
+    # binding history: the placeholder objects are built once; if the class refuses them, the VERY SAME objects are
+    # offered a second time (a user's try / except fallback) -- every attempt must be judged alike
+    items = [build(x, root) for x in t['items']]
+    cls = typed_class(t['fs'])
+    try:
+      return cls(*items)
+    except Exception as first:  # pylint: disable=broad-except
+      try:
+        obj = cls(*items)
+      except Exception:  # pylint: disable=broad-except
+        BIND_LOG.append('refused_twice')
+        raise first
+      BIND_LOG.append('accepted_on_retry')
+      return obj
   if h == 'oneof':
     return pg.oneof([build(c, root) for c in t['cands']])
   if h == 'manyof':
@@ -255,6 +269,37 @@ def _json(v) -> str:
   return hashlib.sha1(json.dumps(pg.to_json(v), sort_keys=True, default=repr).encode()).hexdigest()[:16]
 
 
+def foreign_values(v: dict, rng, limit: int) -> List[dict]:
+  """One-step structural corruptions of an abstract value (outside any remaining placeholder): a list one item
+  longer / shorter, a constant changed, an object of the sibling class."""
+  out: List[dict] = []
+
+  def rebuild(node, path, repl):
+    if not path:
+      return repl
+    c = dict(node)
+    c['items'] = list(node['items'])
+    c['items'][path[0]] = rebuild(node['items'][path[0]], path[1:], repl)
+    return c
+
+  def walk(node, path):
+    h = node['h']
+    if h == 'list':
+      out.append(rebuild(v, path, dict(node, items=node['items'] + [{'h': 'leaf', 'v': 9}])))
+      if node['items']:
+        out.append(rebuild(v, path, dict(node, items=node['items'][:-1])))
+    if h == 'obj':
+      out.append(rebuild(v, path, dict(node, c=1 - node.get('c', 0))))
+    if h == 'leaf':
+      out.append(rebuild(v, path, {'h': 'leaf', 'v': 9 if node['v'] != 9 else 8}))
+    if h in ('dict', 'list', 'obj', 'tobj'):
+      for i, x in enumerate(node['items']):
+        walk(x, path + [i])
+  walk(v, [])
+  rng.shuffle(out)
+  return out[:limit]
+
+
 OTHER_FILTERS = ['oneof', 'choices', 'many3']
 
 
@@ -266,8 +311,13 @@ def observe_c13(entry: dict, seed: int, opts: dict) -> dict:
                        'dnas': [], 'iter': [], 'hasiter': False, 'errs': errs, 'bind_rejected': False,
                        'json': [], 'hist': [], 'spec_all_after': {'t': 'space', 'elems': []}, 'hashist': False}
   # binding: building the value binds every placeholder to the value spec of its field
+  import random as _random  # pylint: disable=import-outside-toplevel
+  rng = _random.Random(seed * 7907 + entry['index'])
+  del BIND_LOG[:]
+  o['rebind_accepted'] = False
   try:
     value = build(tj)
+    o['rebind_accepted'] = 'accepted_on_retry' in BIND_LOG
   except Exception as e:  # pylint: disable=broad-except
     o['bind_rejected'] = True
     o['bind_error'] = type(e).__name__ + ':' + str(e)[:120]
@@ -311,6 +361,17 @@ def observe_c13(entry: dict, seed: int, opts: dict) -> dict:
         rec['redecoded'] = {'h': 'leaf', 'v': -8}
         rec['encode_error'] = type(e).__name__ + ':' + str(e)[:100]
       stages.append(['encode', _json(value)])
+      # encode accepts exactly the values of the template: near misses of the decoded value
+      rec['foreign'] = []
+      for fv in foreign_values(rec['decoded'], rng, opts.get('foreign', 2)):
+        try:
+          real = build(fv)
+        except Exception:  # pylint: disable=broad-except
+          continue                                # not constructible (e.g. a typed field refuses the constant)
+        try:
+          rec['foreign'].append([fv, project(t.encode(real))])
+        except Exception:  # pylint: disable=broad-except
+          rec['foreign'].append([fv, ['!', 0, []]])
       rec['materialized'] = project_value(pg.materialize(value, mk_dna(tree), where=wf))
       stages.append(['materialize', _json(value)])
     except Exception as e:  # pylint: disable=broad-except
